@@ -37,6 +37,17 @@ Exact numeric keys (profiles "keysx", "mergex", cons, deq): 2^53+1 as integer/de
 xs:double 2^53 it rounds to, xs:decimal 0.1 against 0.1e0, 0.5 in three types: op:same-key compares
 the exact mathematical values; the SameKey table of the spec is cross-checked with python fractions.
 
+Keys with several lexical forms and the falsy value of every type (profiles "keysl", "mergel", cons): for
+every atomic type two spellings of one value (hexBinary 0a1b / 0A1B, base64Binary with / without blank,
+1.0 / 1.00 / 1 / 1e0, one dateTime instant in two timezones, P1D / PT24H, P1Y / P12M, QName with two prefixes,
+xs:boolean('1') / true(), gYear 2020Z / 2020+00:00), the traps that are NOT the same key (hexBinary vs
+base64Binary with the same octets, date/time with vs without timezone, NFC vs NFD strings) and zero / -0 /
+'' / false / empty binary / PT0S / P0M as keys of every map function, single and inside key sequences.  Atoms
+are compared through the ValueName table PRINTED BY TLC (two spellings = one value); the table and SameKey
+are cross-checked with python fractions / bytes / base64 / datetime / a duration parser.
+LookupSeq (profile "lookupseq"): E?KS with a SEQUENCE of 1-3 maps / arrays on the left (mixed kinds and sizes),
+every key specifier (?name ?1 ?* ?(k) ?(k1, k2) ?(())), postfix, unary after '!' and item by item in a for.
+
 The graph of one configuration is a forest (one tree per seed store); trees are replayed in a fork
 pool, with few seeds the pool is filled below the first operation.  A state is entered only along a
 transition that passed in both bindings (prefix hygiene); a failure seen on a store that earlier
@@ -81,6 +92,9 @@ TIERS = {
         ('keysx-d1', _c('keysx', 1)),               # numeric keys whose types hold different exact values (2^53+1, 0.1)
         ('mergex-d1', _c('mergex', 1)),
         ('batch', _c('batch', 1)),                  # functions / lookups directly on constructors, once per binding of $x
+        ('keysl-d1', _c('keysl', 1)),               # two spellings of one value for every type, cross-type traps, falsy keys
+        ('mergel-d1', _c('mergel', 1)),
+        ('lookupseq', _c('lookupseq', 1)),          # E?KS with a sequence of maps / arrays on the left
         ('merge13-d1', _c('merge13', 1)),           # merge of two single-entry maps, 13 x 13 keys x 6 policies
         ('mapvals-d1', _c('mapvals', 1)),           # maps of <= 3 entries, nested values, all map functions
         ('arrays-d1', _c('arrays', 1)),             # arrays of <= 3 members, all array functions, positions -1..4
@@ -101,6 +115,9 @@ TIERS = {
         ('mixed-d2-obs', _c('mixed', 2, lite=True, obs_terminal=False)),   # histories go on after observers
         ('keys7-d3', _c('keys7', 3)),
         ('keysx-d2', _c('keysx', 2)),
+        ('keysl-d2', _c('keysl', 2)),
+        ('mergel-d1', _c('mergel', 1)),
+        ('lookupseq', _c('lookupseq', 1)),
         ('mergex-d1', _c('mergex', 1)),
         ('batch', _c('batch', 1)),
         ('arrays2-d3', _c('arrays2', 3, lite=True)),
@@ -111,8 +128,8 @@ ALL_ACTIONS = [
     'MapConsA', 'MapPut', 'MapRemove', 'MapGet', 'MapContains', 'MapSize', 'MapKeys', 'MapEntry', 'MapForEachA',
     'MapFind', 'MapMerge', 'ArrConsSquare', 'ArrConsCurly', 'ArrGet', 'ArrPut', 'ArrAppend', 'ArrSubarray2',
     'ArrSubarray3', 'ArrRemove', 'ArrInsertBefore', 'ArrHead', 'ArrTail', 'ArrReverse', 'ArrJoin', 'ArrFlatten',
-    'ArrForEach', 'ArrFilter', 'ArrFold', 'ArrSize', 'Lookup', 'DeepEqual', 'Batch']
-NSEED = {'merge': 2, 'merge13': 2, 'mergex': 2, 'deq': 2, 'mixed': 2, 'mixed1': 2, 'cons': 0, 'batch': 0}
+    'ArrForEach', 'ArrFilter', 'ArrFold', 'ArrSize', 'Lookup', 'DeepEqual', 'Batch', 'LookupSeq']
+NSEED = {'lookupseq': 3, 'mergel': 2, 'merge': 2, 'merge13': 2, 'mergex': 2, 'deq': 2, 'mixed': 2, 'mixed1': 2, 'cons': 0, 'batch': 0}
 
 # ---------------------------------------------------------------------------------------
 # abstract values (as parsed from TLC): atom {'a','x'}, map {'m': (entries {'k','v'})}, array {'r': (values)}
@@ -124,9 +141,16 @@ def is_map(i): return 'm' in i
 def is_arr(i): return 'r' in i
 
 
+# (type, lexical form) -> name of the VALUE, as printed by TLC (ValueName of spec/MapArray.tla) for every key of
+# the alphabets: two spellings of one value (0a1b / 0A1B, 1.0 / 1.00, PT24H / P1D) are the same atom
+_CANON: dict = {}
+STRING_NAMES = {'e-acute-nfc': '\u00e9', 'e-acute-nfd': 'e\u0301'}
+STRING_NAMES_REV = {v: k for k, v in STRING_NAMES.items()}
+
+
 def canon_item(i):
     if is_atom(i):
-        return ('a', i['a'], i['x'])
+        return ('a', i['a'], _CANON.get((i['a'], i['x']), i['x']))
     if is_map(i):
         return ('m', tuple(sorted(((canon_item(e['k']), canon_value(e['v'])) for e in i['m']), key=repr)))
     if is_arr(i):
@@ -180,10 +204,14 @@ def atom_lit(a) -> str:
     if t == 'float':
         return f"xs:float('{x}')"
     if t == 'string':
-        return f"'{x}'"
+        return "'" + STRING_NAMES.get(x, x) + "'"
     if t == 'boolean':
-        return x + '()'
-    if t in ('anyURI', 'untypedAtomic', 'date', 'QName'):
+        return x + '()' if x in ('true', 'false') else f"xs:boolean('{x}')"
+    if t == 'QName' and x.startswith('{'):
+        uri, qn = x[1:].split('}')
+        return f"QName('{uri}', '{qn}')"
+    if t in ('anyURI', 'untypedAtomic', 'date', 'QName', 'hexBinary', 'base64Binary', 'dateTime', 'gYear',
+             'duration', 'dayTimeDuration', 'yearMonthDuration'):
         return f"xs:{t}('{x}')"
     raise ValueError(t)
 
@@ -242,9 +270,26 @@ def atom_py(a):
     if t == 'float':
         return e.dt.Float(x)           # lexical forms NaN / INF / 1
     if t == 'string':
-        return x
+        return STRING_NAMES.get(x, x)
     if t == 'boolean':
-        return x == 'true'
+        return x in ('true', '1')
+    if t == 'hexBinary':
+        return e.dt.HexBinary(x)
+    if t == 'base64Binary':
+        return e.dt.Base64Binary(x)
+    if t == 'dateTime':
+        return e.dt.DateTime10.fromstring(x)
+    if t == 'gYear':
+        return e.dt.GregorianYear10.fromstring(x)
+    if t == 'dayTimeDuration':
+        return e.dt.DayTimeDuration.fromstring(x)
+    if t == 'yearMonthDuration':
+        return e.dt.YearMonthDuration.fromstring(x)
+    if t == 'duration':
+        return e.dt.Duration.fromstring(x)
+    if t == 'QName' and x.startswith('{'):
+        uri, qn = x[1:].split('}')
+        return e.dt.QName(uri, qn)
     if t == 'anyURI':
         return e.dt.AnyURI(x)
     if t == 'untypedAtomic':
@@ -305,11 +350,25 @@ def proj_atom(x):
     if isinstance(x, e.dt.UntypedAtomic):
         return {'a': 'untypedAtomic', 'x': str(x)}
     if isinstance(x, str):
-        return {'a': 'string', 'x': x}
+        return {'a': 'string', 'x': STRING_NAMES_REV.get(x, x)}
     if isinstance(x, e.date_classes):
         return {'a': 'date', 'x': str(x)}
     if isinstance(x, e.dt.QName):
-        return {'a': 'QName', 'x': x.qname}
+        return {'a': 'QName', 'x': ('{%s}%s' % (x.uri, x.qname)) if x.uri else x.qname}
+    if isinstance(x, e.dt.HexBinary):
+        return {'a': 'hexBinary', 'x': str(x)}
+    if isinstance(x, e.dt.Base64Binary):
+        return {'a': 'base64Binary', 'x': str(x)}
+    if isinstance(x, e.dt.DateTime):
+        return {'a': 'dateTime', 'x': str(x)}
+    if isinstance(x, e.dt.GregorianYear):
+        return {'a': 'gYear', 'x': str(x)}
+    if isinstance(x, e.dt.DayTimeDuration):
+        return {'a': 'dayTimeDuration', 'x': str(x)}
+    if isinstance(x, e.dt.YearMonthDuration):
+        return {'a': 'yearMonthDuration', 'x': str(x)}
+    if isinstance(x, e.dt.Duration):
+        return {'a': 'duration', 'x': str(x)}
     return {'a': 'py:' + type(x).__name__, 'x': repr(x)[:60]}
 
 
@@ -569,7 +628,7 @@ def python_call(store: list, action: str, args: tuple):
 
 
 def operands(action: str, args: tuple) -> list[int]:
-    if action in ('MapMerge', 'ArrJoin'):
+    if action in ('MapMerge', 'ArrJoin', 'LookupSeq'):
         return sorted(set(args[0]))
     if action == 'DeepEqual':
         return sorted({args[0], args[1]})
@@ -695,6 +754,15 @@ NUMERIC = ('integer', 'decimal', 'double', 'float')
 STRINGLIKE = ('string', 'anyURI', 'untypedAtomic')
 
 
+FALSY = {('integer', '0'), ('decimal', '0'), ('double', '0'), ('double', '-0'), ('float', '0'), ('float', '-0'),
+         ('string', ''), ('anyURI', ''), ('untypedAtomic', ''), ('boolean', 'false'), ('boolean', '0'),
+         ('hexBinary', ''), ('base64Binary', ''), ('dayTimeDuration', 'PT0S'), ('yearMonthDuration', 'P0M')}
+
+
+def has_tz(k) -> bool:
+    return k['x'].endswith('Z') or k['x'][-6:-5] in ('+', '-') and k['x'][-3] == ':'
+
+
 def key_flags(keys) -> dict:
     """abstract classes of the keys taking part in a case (parameter keys and keys of the operand maps):
       nan_key             a NaN key takes part
@@ -706,11 +774,17 @@ def key_flags(keys) -> dict:
     pairs += [(b, a) for a, b in pairs]
     return dict(
         nan_key=any(k['x'] == 'NaN' for k in keys),
-        bool_num_keys=any(a['a'] == 'boolean' and b['a'] in NUMERIC and (a['x'], b['x']) in (('true', '1'), ('false', '0'))
-                          for a, b in pairs),
+        bool_num_keys=any(a['a'] == 'boolean' and b['a'] in NUMERIC and
+                          ({'1': 'true', '0': 'false'}.get(a['x'], a['x']), {'1.00': '1', '-0': '0'}.get(b['x'], b['x']))
+                          in (('true', '1'), ('false', '0')) for a, b in pairs),
         qname_string_keys=any(a['a'] == 'QName' and b['a'] in STRINGLIKE and a['x'] == b['x'] for a, b in pairs),
         untyped_mixed_keys=any(a['a'] == 'untypedAtomic' and b['a'] not in STRINGLIKE for a, b in pairs),
-        untyped_key=any(k['a'] == 'untypedAtomic' for k in keys))
+        untyped_key=any(k['a'] == 'untypedAtomic' for k in keys),
+        # a date/time key WITH and one WITHOUT timezone (same type); an xs:hexBinary and an xs:base64Binary key
+        tz_presence_keys=any(a['a'] == b['a'] and a['a'] in ('dateTime', 'date', 'gYear') and has_tz(a) != has_tz(b)
+                             for a, b in pairs),
+        binary_cross_type_keys=any(a['a'] == 'hexBinary' and b['a'] == 'base64Binary' for a, b in pairs),
+        falsy_key=any((k['a'], k['x']) in FALSY for k in keys))
 
 
 def keys_in(v, out: list):
@@ -745,6 +819,12 @@ def key_class(k1, k2) -> str:
 def features(action, args, src_store, expected, binding, check, outcome) -> dict:
     f = dict(action=action, binding=binding, check=check, outcome=outcome,
              expected=('err:' + expected[0]['err']) if 'err' in expected[0] else 'value')
+    if action == 'LookupSeq':
+        hs, ks = args
+        kinds = ['map' if is_map(src_store[h - 1]['v'][0]) else 'array' for h in hs]
+        f.update(n_items=len(hs), item_kinds='/'.join(sorted(set(kinds))), lookup=ks[0],
+                 n_keys=len(ks[1]) if ks[0] == 'parens' else 1)
+        return f
     if action == 'Batch':
         act, tmpl, params, xs = args
         f.update(act=act, constructor='map' if is_map(tmpl) else 'array',
@@ -955,10 +1035,39 @@ def apply_batch(args, binding):
     return res
 
 
+def lookup_spec_text(b, ks) -> str:
+    if ks[0] == 'name':
+        return ks[1]
+    if ks[0] == 'int':
+        return str(ks[1])
+    if ks[0] == 'star':
+        return '*'
+    if ks[0] == 'paren':
+        return '(' + b.atom(ks[1]) + ')'
+    # 'parens': a sequence of 0, 1, 2 keys
+    return '(' + (b.atoms(ks[1]) if len(ks[1]) != 1 else b.atom(ks[1][0])) + ')'
+
+
+def apply_lookup_seq(store, args, binding):
+    """E?KS with a SEQUENCE of maps / arrays on the left: postfix, unary after '!', and item by item"""
+    hs, ks = args
+    res = []
+    for form in ('postfix', 'unary', 'for'):
+        b = Binder(binding, store)
+        left = b.hs(hs)
+        spec = lookup_spec_text(b, ks)
+        text = {'postfix': f'{left}?{spec}', 'unary': f'{left} ! ?{spec}',
+                'for': f'for $i in {left} return $i?{spec}'}[form]
+        res.append((text, xp(text, b.vars)))
+    return res
+
+
 def apply_action(store, action, args, binding):
     """all spellings of one action: [(text, outcome)]; the first one is the reference"""
     if action == 'Batch':
         return apply_batch(args, binding)
+    if action == 'LookupSeq':
+        return apply_lookup_seq(store, args, binding)
     b = Binder(binding, store)
     text = expression(b, action, args)
     return [(text, xp(text, b.vars))]
@@ -1229,47 +1338,79 @@ def _worker(chunk):
 
 # ---------------------------------------------------------------------------------------
 
-def exact_value(t: str, x: str):
-    """second oracle (python fractions) for the exact mathematical value of a numeric atom"""
+def py_key_class(t: str, x: str):
+    """SECOND ORACLE for the key tables of the SPEC (never for the code): the class of a key computed with
+    python fractions / bytes / base64 / datetime / a duration parser: two keys are the same key iff equal"""
+    import base64
+    import datetime
+    import re
     import struct
     from fractions import Fraction
-    if x in ('NaN', 'INF', '-INF'):
-        return x
-    if t in ('integer', 'decimal'):
-        return Fraction(x)
-    f = float(x)
-    if t == 'float':
-        f = struct.unpack('f', struct.pack('f', f))[0]
-    return Fraction(f)
+    if t in NUMERIC:
+        if x in ('NaN', 'INF', '-INF'):
+            return ('numeric', x)
+        if t in ('integer', 'decimal'):
+            return ('numeric', Fraction(x))
+        f = float(x)
+        if t == 'float':
+            f = struct.unpack('f', struct.pack('f', f))[0]
+        return ('numeric', Fraction(f))
+    if t in STRINGLIKE:
+        return ('string', STRING_NAMES.get(x, x))
+    if t == 'boolean':
+        return ('boolean', x in ('true', '1'))
+    if t == 'hexBinary':
+        return ('hexBinary', bytes.fromhex(x))
+    if t == 'base64Binary':
+        return ('base64Binary', base64.b64decode(''.join(x.split())))
+    if t in ('duration', 'dayTimeDuration', 'yearMonthDuration'):
+        m = re.fullmatch(r'P(?:(\d+)Y)?(?:(\d+)M)?(?:(\d+)D)?(?:T(?:(\d+)H)?(?:(\d+)M)?(?:(\d+)S)?)?', x)
+        y, mo, d, h, mi, sec = (int(g or 0) for g in m.groups())
+        return ('duration', 12 * y + mo, ((d * 24 + h) * 60 + mi) * 60 + sec)
+    if t == 'dateTime':
+        v = datetime.datetime.fromisoformat(x.replace('Z', '+00:00'))
+        if v.tzinfo is None:
+            return ('dateTime', 'no-tz', v)
+        return ('dateTime', 'tz', v.astimezone(datetime.timezone.utc))
+    if t == 'gYear':
+        m = re.fullmatch(r'(\d{4})(Z|[+-]\d\d:\d\d)?', x)
+        tz = m.group(2)
+        return ('gYear', 'no-tz' if tz is None else 'tz', m.group(1), None if tz is None else tz.replace('Z', '+00:00'))
+    if t == 'QName':
+        return ('QName',) + (tuple(x[1:].split('}')[0:1]) + (x.split(':')[-1],) if x.startswith('{') else ('', x))
+    return (t, x)
 
 
 def load_samekey_table(chk, wd):
-    """op:same-key as decided by the specification, printed once by TLC (used for the feature classes), and
-    cross-checked on the numeric keys against python fractions (disagreement = machinery failure)"""
+    """op:same-key and the value names as decided by the specification, printed once by TLC (used for the
+    feature classes and to compare two spellings of one value), and cross-checked against python
+    fractions / bytes / base64 / datetime (disagreement = machinery failure)"""
     gen = os.path.join(wd, 'gen')
     os.makedirs(gen, exist_ok=True)
     with open(os.path.join(gen, 'MapArrayTables.tla'), 'w') as f:
         f.write('---- MODULE MapArrayTables ----\nEXTENDS MapArray\n'
-                'AllKeys == KeysExt \\cup KeysX\n'
+                'AllKeys == KeysExt \\cup KeysX \\cup KeysL \\cup KeysZ\n'
                 'ASSUME \\A k1, k2 \\in AllKeys : SameKey(k1, k2) => PrintT(<<"samekey", <<k1.a, k1.x, k2.a, k2.x>>>>)\n'
-                'ASSUME \\A k \\in AllKeys : PrintT(<<"key", <<k.a, k.x>>>>)\n====\n')
+                'ASSUME \\A k \\in AllKeys : PrintT(<<"key", <<k.a, k.x, ValueName(k).c, ValueName(k).n>>>>)\n====\n')
     cfg = tla.cfg_text(dict(Profile='selftest', Depth=0, ObsTerminal=True, InPlace=False, Lite=False))
     r = tla.require_ok(tla.run_tlc('MapArrayTables', cfg, wd, workers=1, extra_modules_dir=gen), 'MapArrayTables')
     for t in tla.printed_values(r.output, 'samekey'):
         _SAMEKEY.add(tuple(t))
-    keys = [tuple(t) for t in tla.printed_values(r.output, 'key')]
-    if len(keys) < 20 or any((a, x, a, x) not in _SAMEKEY for a, x in keys):
+    keys = []
+    for a, x, c, n in tla.printed_values(r.output, 'key'):
+        keys.append((a, x))
+        _CANON[(a, x)] = c + ':' + n
+    if len(keys) < 60 or any((a, x, a, x) not in _SAMEKEY for a, x in keys):
         raise tla.MachineryError('SameKey table is not reflexive / key alphabet not printed')
     bad = []
     for a1, x1 in keys:
         for a2, x2 in keys:
-            if a1 in NUMERIC and a2 in NUMERIC:
-                want = exact_value(a1, x1) == exact_value(a2, x2)
-                if want != ((a1, x1, a2, x2) in _SAMEKEY):
-                    bad.append((a1, x1, a2, x2, want))
+            want = py_key_class(a1, x1) == py_key_class(a2, x2)
+            if want != ((a1, x1, a2, x2) in _SAMEKEY):
+                bad.append((a1, x1, a2, x2, want))
     if bad:
-        raise tla.MachineryError(f'spec SameKey disagrees with exact python fractions: {bad[:4]}')
-    chk.coverage['samekey_pairs_cross_checked'] = sum(1 for a, _ in keys if a in NUMERIC) ** 2
+        raise tla.MachineryError(f'spec SameKey disagrees with the python second oracle: {bad[:4]}')
+    chk.coverage['samekey_pairs_cross_checked'] = len(keys) ** 2
 
 
 def self_test(chk, wd):
@@ -1287,7 +1428,7 @@ def run_tlc_config(chk, name, consts):
     wd = os.path.join(chk.scratch, name)
     dot = os.path.join(wd, 'g.dot')
     cfg = tla.cfg_text(consts, invariants=['Laws'], properties=['Immutable'])
-    r = tla.run_tlc('MapArray', cfg, wd, dump_dot=dot, workers=4)
+    r = tla.run_tlc('MapArray', cfg, wd, dump_dot=dot, workers=3)
     return r, dot
 
 
@@ -1361,7 +1502,7 @@ def run(chk: core.Check) -> None:
     self_test(chk, os.path.join(chk.scratch, 'selftest'))
     # the TLC runs are independent: a few at a time, while the replay (a fork pool) works through them in order
     from concurrent.futures import ThreadPoolExecutor
-    with ThreadPoolExecutor(max_workers=3) as ex:
+    with ThreadPoolExecutor(max_workers=4) as ex:
         futs = [(name, consts, ex.submit(run_tlc_config, chk, name, consts)) for name, consts in TIERS[chk.tier]]
         for name, consts, fut in futs:
             run_config(chk, name, consts, tlc=fut.result())
